@@ -15,6 +15,13 @@ Proof. intros. unfold wrap16, U16MAX in *. apply N.mod_small. lia. Qed.
 Lemma wrap32_small x : x <= U32MAX -> wrap32 x = x.
 Proof. intros. unfold wrap32, U32MAX in *. apply N.mod_small. lia. Qed.
 
+Lemma nonl_noncr_nil : nonl_noncr [] = 0. Proof. reflexivity. Qed.
+Lemma seg_len_nil : seg_len [] = 0. Proof. reflexivity. Qed.
+Ltac empty_case Bpre Npre :=
+  cbv iota; rewrite nonl_noncr_nil, seg_len_nil;
+  change (wrap16 0) with 0; change (wrap32 0) with 0; rewrite !N.add_0_r;
+  change (wrap16 1) with 1; rewrite (wrap32_small _ Bpre), (wrap32_small _ Npre); reflexivity.
+
 (** current code (d674421): the error span starts at the specified Loc of the offending line's
     start and ends one segment further (or is empty on an empty line) *)
 Theorem guard_err_span_valid pre first tail :
@@ -35,10 +42,9 @@ Proof.
   { unfold line_of in *. rewrite wrap16_small by lia. lia. }
   rewrite L, (wrap32_small _ Bpre), (wrap32_small _ Npre).
   destruct Hf as [-> | (r & ->)].
-  - rewrite Nat.add_0_r, S0. unfold nonl_noncr, seg_len. cbn [filter fold_right nlen length].
-    cbn. rewrite N.add_0_r, (wrap32_small _ Bpre), (wrap32_small _ Npre). reflexivity.
+  - rewrite Nat.add_0_r, S0. empty_case Bpre Npre.
   - rewrite S0. destruct first as [|c0 f0] eqn:Ef.
-    + rewrite Nat.add_0_r, S0. cbn. rewrite N.add_0_r, (wrap32_small _ Bpre), (wrap32_small _ Npre). reflexivity.
+    + rewrite Nat.add_0_r, S0. empty_case Bpre Npre.
     + rewrite <- Ef in *. f_equal. unfold spec_loc, chars_before. rewrite firstn_app_len1.
       rewrite concat_app. cbn [concat]. rewrite app_nil_r, line_of_app, Hnl. unfold col_of.
       rewrite (last_line_app_nonl _ _ Hnl), Hll. cbn [app].
